@@ -16,7 +16,7 @@ generated names/sizes (harness/c07_hash.c calls the macro); (2) correspondence o
 long random histories with names colliding under the model's own hash, all hint sizes, UTF-8
 composed/decomposed pairs, interleaved enddef/redef/close/open, 1-2 ranks: every return code, id,
 inquiry dump, lookup result and the header bytes on disk; (3) oracle on the implementation alone."""
-import os, sys, re, hashlib, unicodedata, concurrent.futures as cf
+import os, sys, re, hashlib, unicodedata, threading, concurrent.futures as cf
 from pnc import common as C
 from pnc import scripts as S
 
@@ -312,12 +312,15 @@ def compare_op(o, tok, ml, rank):
         if rc == 0:
             if tok[3] == 'big':
                 return []
-            data = unhex(tok[3]); md = bytes(ml[2:])
-            if data[:len(md)] != md:
-                n = next((i for i in range(min(len(md), len(data))) if md[i] != data[i]), min(len(md), len(data)))
+            data = unhex(tok[3]); hl = ml[1]; md = bytes(ml[3:])
+            # compared: the header image (hl bytes, as found by the specification decoder in the model's file)
+            if data[:hl] != md[:hl]:
+                n = next((i for i in range(min(hl, len(data))) if md[i] != data[i]), min(hl, len(data)))
                 return ['header bytes on disk differ from encode_header(model header) at byte %d '
-                        '(file %d bytes, model %d): file %s model %s'
-                        % (n, len(data), len(md), data[max(0, n - 8):n + 16].hex(), md[max(0, n - 8):n + 16].hex())]
+                        '(file %d bytes, header image %d): file %s model %s'
+                        % (n, len(data), hl, data[max(0, n - 8):n + 16].hex(), md[max(0, n - 8):n + 16].hex())]
+            if not hl and len(md) > 0:
+                return ['the model file holds no decodable header (%d bytes)' % len(md)]
         return []
     if rc != ml[0]:
         return ['%s: rc impl %d model %d' % (k, rc, ml[0])]
@@ -352,6 +355,10 @@ def oracle(ops, impl, where, rank):
             continue
         if k == 'inq':
             d = parse_impl_inq(tok[1:])
+            if d is None and tok[1] == '0' and any(re.fullmatch(r'E-?[0-9]+', t) for t in tok[2:]):
+                # the dump walks the objects by id and then asks for each by its own name (inq_att/get_att)
+                bad.append(('name_id_agree', i, 'an inquiry by the name that inquiry by id just returned fails: %s'
+                            % ' '.join(t for t in tok[2:] if re.fullmatch(r'E-?[0-9]+', t))))
             if d:
                 if s in closed and closed[s] is not None:
                     a, b = closed[s], d
@@ -510,10 +517,12 @@ def gen_history(rng, tier):
         if r < 18:
             return rand_valid_name(rng, rng.choice([3, 20, 256]))
         return rng.choice(BAD_NAMES)
+    def plausible(nm):
+        return 0 < len(nm) <= 256 and nm not in BAD_NAMES
     def varid(st):
-        r = rng.below(12)
-        if r < 4: return -1
-        if r < 10 and st.vars: return rng.below(len(st.vars))
+        r = rng.below(24)
+        if r < 9 or (r < 22 and not st.vars): return -1
+        if r < 22: return rng.below(len(st.vars))
         return rng.choice([-2, len(st.vars), len(st.vars) + 3])
     def atts_of(st, v):
         if v == -1: return st.gatts
@@ -561,15 +570,19 @@ def gen_history(rng, tier):
         elif r < 27:
             nm = name(); size = rng.choice([1, 2, 3, 5, 7, -1, -1, 4, -2, 2 ** 31 + 5])
             ops.append(('def_dim', s, nm, size))
-            if st.indef and nfc_tab(nm) not in [nfc_tab(x) for x in st.dims] and 0 < len(nm) <= 256:
+            if st.indef and plausible(nm) and nfc_tab(nm) not in [nfc_tab(x) for x in st.dims] and \
+               (size >= 1 or size == -1) and size < 2 ** 31:
                 st.dims.append(nm)
         elif r < 35:
-            nm = name(); t = rng.choice([1, 2, 3, 4, 5, 6, 7, 8, 9, 10, 11, 4, 6, 0, 12])
-            nd = rng.choice([0, 1, 1, 2, 2, 3])
-            ids = [rng.below(max(1, len(st.dims))) if rng.chance(9, 10) else rng.choice([-1, len(st.dims) + 1])
+            nm = name()
+            t = rng.choice([1, 2, 3, 4, 5, 6] if (fmts[s] < 5 and rng.chance(7, 8)) else
+                           [1, 2, 3, 4, 5, 6, 7, 8, 9, 10, 11, 4, 6, 0, 12])
+            nd = rng.choice([0, 1, 1, 2, 2, 3]) if st.dims else 0
+            ids = [rng.below(max(1, len(st.dims))) if rng.chance(14, 15) else rng.choice([-1, len(st.dims) + 1])
                    for _ in range(nd)]
             ops.append(('def_var', s, nm, t, ids))
-            if st.indef and nfc_tab(nm) not in [nfc_tab(x) for x in st.vars]:
+            if st.indef and plausible(nm) and nfc_tab(nm) not in [nfc_tab(x) for x in st.vars] and \
+               1 <= t <= (11 if fmts[s] == 5 else 6) and all(0 <= i < len(st.dims) for i in ids):
                 st.vars.append(nm); st.vatts.append([])
         elif r < 55:
             v = varid(st); nm = name(atts_of(st, v))
@@ -578,7 +591,8 @@ def gen_history(rng, tier):
             if nm == b'_FillValue' and rng.chance(2, 3):
                 n = 1
             ops.append(('put_att', s, v, nm, t, values(t, n)))
-            if st.indef and nm not in atts_of(st, v) and (v == -1 or 0 <= v < len(st.vatts)):
+            if st.indef and plausible(nm) and nm not in atts_of(st, v) and (v == -1 or 0 <= v < len(st.vatts)) \
+               and (t == 2 or 1 <= t <= (11 if fmts[s] == 5 else 6)):
                 atts_of(st, v).append(nm)
         elif r < 60:
             v = varid(st); ops.append(('get_att', s, v, name(atts_of(st, v))))
@@ -624,7 +638,19 @@ def gen_history(rng, tier):
     return dict(nprocs=nprocs, nslots=nslots, ops=ops)
 
 # ------------------------------------------------------------------ running one history on both sides
+_REFRESH = threading.Lock()
+def live_impl(impl):
+    """the library cache entry can be evicted while the check runs (when /repo changes and other checks rebuild);
+    then use the library of the current tree"""
+    if os.path.exists(impl):
+        return impl
+    with _REFRESH:
+        C._libcache.clear()
+        asan = 'asan' in os.path.basename(os.path.dirname(impl)) or '_asan' in os.path.basename(impl)
+        return S.impl_exe(C.libdir('asan' if asan else 'default'), asan=asan)
+
 def run_history(hist, impl, mexe, workdir, tag, env=None, timeout=120):
+    impl = live_impl(impl)
     ops = hist['ops']
     script, where = script_of(ops, hist['nprocs'])
     r = S.run_script(script, impl, None, workdir, tag, timeout=timeout, env=env, want_model=False)
@@ -891,7 +917,7 @@ def run(ctx):
         judge(ctx, hx_, rx, impl, mexe, wd, set(), 'cross-format copy regression case')
 
     # ---- (3) random long histories
-    nh = 2600 if thorough else 170
+    nh = 2600 if thorough else 120
     hists = []
     for k in range(nh):
         hists.append(gen_history(rng.fork('h%d' % k), ctx.tier))
@@ -901,7 +927,7 @@ def run(ctx):
         if r['hang'] or r['crash']:
             # mpiexec under load occasionally loses a rank at MPI_Finalize: only a reproducible fault counts
             with RETRY_LOCK:
-                r = run_history(h, impl, mexe, wd, 'h%dr' % k)
+                r = run_history(h, impl, mexe, wd, 'h%dr' % k, timeout=900)
         return k, h, r
     reported = set()
     with cf.ThreadPoolExecutor(max_workers=8) as ex:
@@ -943,7 +969,6 @@ def run(ctx):
                        'rename/delete/overwrite/copy after a successful definition (from the library\'s own return codes).')
     ctx.cov['distribution'] = dist
 
-import threading
 RETRY_LOCK = threading.Lock()
 MODIFY = ('rename_dim', 'rename_var', 'rename_att', 'del_att', 'copy_att')
 
@@ -1053,7 +1078,18 @@ def judge(ctx, h, r, impl, mexe, wd, reported, what, small=None):
         else:
             txt = '; '.join('op %d %r rank %d: %s' % (i, ops[i][:3], rk, m) for i, rk, m in r['mism'][:3])
         ctx.violation('corr_C07_history (%s): model and library disagree while the oracle on the library passes: %s'
-                      % (what, txt), shrunk(lambda rr: bool(rr['mism'] or rr['ub_at'] is not None)), no_input=True)
+                      % (what, txt), shrunk(lambda rr: same_kind(r, rr)), no_input=True)
+
+def mism_kind(m):
+    return re.sub(r'[0-9]+', '#', m.split(':')[0])[:40]
+
+def same_kind(r, rr):
+    if r['ub_at'] is not None:
+        return rr['ub_at'] is not None
+    if not r['mism'] or not rr['mism']:
+        return False
+    return mism_kind(r['mism'][0][2]) in {mism_kind(x[2]) for x in rr['mism']} and \
+        not any('does not cover' in x[2] for x in rr['mism'])
 
 def replay(ctx, d):
     lib = C.libdir(d.get('variant', 'default'))
